@@ -605,7 +605,20 @@ class Recon:
         if k == "self":
             return self.self_attr(base[1], name, depth)
         if k == "call" and base[1].startswith("new:"):
-            return self.self_attr(base[1][4:], name, depth)
+            v = self.self_attr(base[1][4:], name, depth)
+            # an attribute of THIS instance: the constructor's parameters are the arguments of this construction
+            init = base[1][4:] + ".__init__"
+            if base[2] and isinstance(v, tuple) and len(v) == 3 and v[0] == "p" and v[1] == init:
+                # (only for an attribute that simply stores a constructor argument; derived attributes keep the class-level term)
+                mp = {("p", init, i + 1): a for i, a in enumerate(base[2])}
+                fdef = self._func_by_key(init)
+                if fdef is not None and base[3]:
+                    names = [a.arg for a in fdef.args.posonlyargs + fdef.args.args]
+                    for kw, val in base[3]:
+                        if kw in names:
+                            mp[("p", init, names.index(kw))] = val
+                v = S.subst(v, mp)
+            return v
         if k == "c":
             v = base[1]
             if isinstance(v, LayoutRef):
